@@ -275,3 +275,92 @@ Definition emits_ok (c : cfg) (r : iter_rec) : Prop :=
   i_events r = if succeeded (i_classes r) then genuine_events c (i_height r) (i_blobs r) else [].
 
 Definition get_call (h : N) (oc : nat * list blob) : call := CGet h (fst oc) (length (snd oc)).
+
+(* ==== RetrieveLoop with its two wake-up channels ==================================================
+   retriever.go:24-51.  The loop waits in `select` on m.retrieveCh (capacity 1, manager.go:396; filled by
+   the non-blocking send of SyncLoop's DA-block ticker, sync.go:233, at ANY time) and on its private
+   blobsFoundCh (capacity 1; the loop itself is the only sender and the only reader).  [scan] above merges
+   the two sources (one wake-up = iterate until a failure); here they are separate, a tick may arrive
+   while an iteration runs, and when both channels hold a value `select` takes either one. *)
+
+(* One loop iteration at the cursor: retriever.go:36-50.  The boolean says whether the height was passed
+   (processNextDAHeaderAndData returned nil): only then the loop re-arms blobsFoundCh and moves the cursor. *)
+Definition iterate (c : cfg) (st : state) : state * iter_rec * bool :=
+  let cur := s_cursor st in
+  match s_rest st with
+  | [] => let p := process c cur no_height in
+          ({| s_cursor := cur; s_rest := [] |}, mk_rec cur true [] p cur, false)
+  | hi :: rest' =>
+      let p := process c cur hi in
+      match p_res p with
+      | PNil => ({| s_cursor := cur + 1; s_rest := rest' |}, mk_rec cur true (h_blobs hi) p (cur + 1), true)
+      | _ => ({| s_cursor := cur; s_rest := {| h_blobs := h_blobs hi; h_outs := p_outs p |} :: rest' |},
+              mk_rec cur true (h_blobs hi) p cur, false)
+      end
+  end.
+
+(* How the loop puts the continuation token into blobsFoundCh. *)
+Inductive rearm :=
+| RNonBlocking   (* `select { case blobsFoundCh <- struct{}{}: default: }` — the code, retriever.go:46-49 *)
+| RBlocking.     (* a send that waits for room — NOT the code; the variant the theorems rule out *)
+
+(* A send on a 1-slot channel nobody else reads: Some full' = the statement completes, None = it never does. *)
+Definition send_token (m : rearm) (full : bool) : option bool :=
+  match m, full with
+  | _, false => Some true            (* room: the value is buffered *)
+  | RNonBlocking, true => Some true  (* full: the default branch is taken, the signal is dropped *)
+  | RBlocking, true => None          (* full: waits for a reader; the only reader is the sender *)
+  end.
+
+Record lstate := { l_scan : state;     (* cursor and DA as far as unused *)
+                   l_tick : bool;      (* len(m.retrieveCh) = 1 *)
+                   l_tok : bool;       (* len(blobsFoundCh) = 1 *)
+                   l_stuck : bool }.   (* the loop goroutine is blocked for ever in the re-arm send *)
+
+(* What the environment decides in one turn of the loop. *)
+Record turn := { t_pick_tick : bool;   (* both channels ready: select takes retrieveCh (true) or blobsFoundCh (false) *)
+                 t_tick : bool }.      (* a DA-block tick (non-blocking send on retrieveCh) arrives during this turn *)
+
+(* One turn: the top select (retriever.go:30-35), and if a channel was ready, the iteration and the re-arm.
+   With nothing ready the loop stays in the select and only the tick, if any, is buffered. *)
+Definition lturn (m : rearm) (c : cfg) (ls : lstate) (t : turn) : lstate * list iter_rec :=
+  if l_stuck ls then
+    ({| l_scan := l_scan ls; l_tick := l_tick ls || t_tick t; l_tok := l_tok ls; l_stuck := true |}, [])
+  else if negb (l_tick ls || l_tok ls) then
+    ({| l_scan := l_scan ls; l_tick := t_tick t; l_tok := false; l_stuck := false |}, [])
+  else
+    let pick_tick := if l_tick ls && l_tok ls then t_pick_tick t else l_tick ls in
+    let tick1 := if pick_tick then false else l_tick ls in
+    let tok1 := if pick_tick then l_tok ls else false in
+    let '(st1, r, adv) := iterate c (l_scan ls) in
+    let tick2 := tick1 || t_tick t in
+    if adv then
+      match send_token m tok1 with
+      | Some tok2 => ({| l_scan := st1; l_tick := tick2; l_tok := tok2; l_stuck := false |}, [r])
+      | None => ({| l_scan := st1; l_tick := tick2; l_tok := tok1; l_stuck := true |}, [r])
+      end
+    else ({| l_scan := st1; l_tick := tick2; l_tok := tok1; l_stuck := false |}, [r]).
+
+Fixpoint lrun (m : rearm) (c : cfg) (ls : lstate) (ts : list turn) : lstate * list (list iter_rec) :=
+  match ts with
+  | [] => (ls, [])
+  | t :: r => let '(ls1, recs) := lturn m c ls t in
+              let '(ls2, rr) := lrun m c ls1 r in (ls2, recs :: rr)
+  end.
+
+(* the loop right after start: waiting, both channels empty unless a tick is already buffered *)
+Definition linit (c : cfg) (da : list hinfo) (tick : bool) : lstate :=
+  {| l_scan := init c da; l_tick := tick; l_tok := false; l_stuck := false |}.
+
+Definition literations (m : rearm) (c : cfg) (ls : lstate) (ts : list turn) : list iter_rec :=
+  concat (snd (lrun m c ls ts)).
+
+(* every height of [hs], examined in turn from [cur] on, is passed at its first loop iteration *)
+Fixpoint all_pass (c : cfg) (cur : N) (hs : list hinfo) : Prop :=
+  match hs with
+  | [] => True
+  | hi :: r => p_res (process c cur hi) = PNil /\ all_pass c (cur + 1) r
+  end.
+
+(* the iterations of a loop run are those of wake-ups served one after the other *)
+Definition is_prefix {A} (a b : list A) : Prop := exists s, b = a ++ s.
